@@ -158,6 +158,8 @@ func (p *Parser) ParseIfExpression() (*ast.IfExpression, error) {
 	if !p.ExpectPeek(token.LEFT_PAREN) {
 		return nil, errors.WithStack(UnexpectedToken(p.peekToken, "LEFT_PAREN"))
 	}
+	// comments between "if" and the left parenthesis
+	SwapLeadingInfix(p.curToken, exp.Meta)
 
 	p.NextToken() // point to condition expression start
 	cond, err := p.ParseExpression(LOWEST)
@@ -278,6 +280,10 @@ func (p *Parser) ParseFunctionCallExpression(fn ast.Expression) (ast.Expression,
 		return nil, errors.WithStack(err)
 	}
 	exp.Arguments = args
+	if len(args) == 0 {
+		// comments inside the empty parenthesis
+		SwapLeadingInfix(p.curToken, exp.Meta)
+	}
 	exp.EndLine = p.curToken.Token.Line
 	exp.EndPosition = p.curToken.Token.Position
 
@@ -288,6 +294,8 @@ func (p *Parser) ParseFunctionArgumentExpressions() ([]ast.Expression, error) {
 	list := []ast.Expression{}
 
 	if p.PeekTokenIs(token.RIGHT_PAREN) {
+		// There is no argument to hold the comments inside the empty parenthesis,
+		// the caller moves them from the right parenthesis token to the function name
 		p.NextToken() // point to RIGHT_PAREN, means nothing argument is specified
 		return list, nil
 	}
